@@ -217,5 +217,64 @@ def run_xml(tier, seed):
     return records
 
 
+def run_xml_findings(tier, seed):
+    """SAST-driven use of the XML pipeline: only the element that carries a finding (start line and column) is edited"""
+    from codemodder.codemods.xml_transformer import ElementAttributeXMLTransformer, XMLTransformerPipeline
+    from codemodder.file_context import FileContext
+    from codemodder.result import LineInfo
+    from core_codemods.sonar.results import SonarLocation, SonarResult
+    import logging
+    tmp = Path(tempfile.mkdtemp(prefix="pyvc_c19f_"))
+    logging.disable(logging.CRITICAL)
+
+    class Ctx:
+        dry_run = False
+        directory = tmp
+    docs = [
+        "<root>\n  <target attr=\"old\"/>\n  <target attr=\"old\"/>\n  <other><target attr=\"old\"/></other>\n</root>\n",
+        "<root>\n  <a>\n    <target attr=\"old\"/>\n  </a>\n  <b>\n    <target attr=\"old\"/>\n  </b>\n</root>\n",
+    ]
+    evals, bad = 0, None
+    try:
+        for doc in docs:
+            lines = doc.splitlines()
+            sites = [(i + 1, l.index("<target")) for i, l in enumerate(lines) if "<target" in l]
+            for flagged in sites:
+                f = tmp / "doc.xml"
+                f.write_bytes(doc.encode("utf-8"))
+                line, col = flagged
+                loc = SonarLocation(file=f, start=LineInfo(line, col + 1, ""), end=LineInfo(line, col + 20, ""))
+                res = [SonarResult(rule_id="r", locations=[loc], finding_id="k")]
+                fc = FileContext(tmp, f, [], [], res)
+                factory = functools.partial(ElementAttributeXMLTransformer, name_attributes_map={"target": {"attr": "new"}})
+                try:
+                    cs = XMLTransformerPipeline(factory).apply(Ctx, fc, res)
+                except Exception as e:      # noqa
+                    cs = f"raised {type(e).__name__}: {e}"
+                after = f.read_bytes().decode("utf-8")
+                evals += 1
+                import re as _re
+                occ = _re.findall(r'<target attr="(old|new)"', after)          # the target elements of the rewritten document, in order
+                edited = [k for k, v in enumerate(occ) if v == "new"]
+                want = [sites.index(flagged)]
+                w = None
+                if isinstance(cs, str):
+                    w = {"clause": "the pipeline does not raise", "observed": cs}
+                elif edited != want or cs is None or [c.lineNumber for c in cs.changes] != [line]:
+                    w = {"clause": "only the element that carries the finding is edited; one change, on its line", "finding at": [line, col + 1],
+                         "edited target elements (ordinals)": edited, "expected": want,
+                         "change lines": None if cs is None or isinstance(cs, str) else [c.lineNumber for c in cs.changes]}
+                if w is not None and bad is None:
+                    bad = dict(w, document=doc)
+    finally:
+        logging.disable(logging.NOTSET)
+        shutil.rmtree(tmp, ignore_errors=True)
+    return {"kind": "bounded", "id": "bounded:XML pipeline edits only the element that carries a finding", "status": "refuted" if bad else "discharged",
+            "bound": "2 documents with 2-3 same-named elements at equal and different indentation; each element flagged in turn", "evaluations": evals,
+            "witness": bad, "func": "codemodder.codemods.xml_transformer.XMLTransformer.match_result",
+            "reason": "" if not bad else f"clause '{bad.get('clause')}' fails", "replay": {"reproduced": True, "detail": json.dumps(bad, default=str)} if bad else None,
+            "clause": "edited elements == {the flagged element}; change line numbers == [its line]"}
+
+
 def extra_checks(tier="quick", seed=0):
-    return run_xml(tier, seed)
+    return run_xml(tier, seed) + [run_xml_findings(tier, seed)]
